@@ -348,8 +348,28 @@ class FnIntervals:
                 eff = self._closure_add(a[1])
                 if v is not None and eff is not None:
                     return clamp_to(Iv(v.lo + eff, v.hi + eff, v.src, v.exact), pty) if pty else None
+            if pty and pty in INT_RANGE and not a and (
+                    (name == "core::default::Default::default" and res.startswith("<" + pty + " as core::default::Default>")) or
+                    (name == "jxl_oxide_common::BundleDefault::default_with_context" and res.startswith("<T as jxl_oxide_common::BundleDefault<"))):
+                return Iv(0, 0)     # the integer default (BundleDefault's blanket impl is T::default())
+            if pty and pty in INT_RANGE and len(a) == 1 and name == "jxl_oxide_common::BundleDefault::default_with_context" \
+                    and res.startswith("<T as jxl_oxide_common::BundleDefault<"):
+                return Iv(0, 0)
             if res in self.summaries and self.summaries[res] is not None:
                 return self.summaries[res]
+            # a small workspace helper that returns an integer: evaluate its body on the arguments' intervals
+            if self.prog is not None and pty and getattr(self, "depth", 0) < 2:
+                g = self.prog.fn(res) or self.prog.fn(name)
+                if g is not None and g is not fn and len(g.blocks) <= 40 and g.argc == len(a) and not g.path.startswith(BS):
+                    child = FnIntervals(g, self.fields, self.prog)
+                    child.depth = getattr(self, "depth", 0) + 1
+                    for i, o in enumerate(a):
+                        v = self.op(o)
+                        if v is not None:
+                            child.memo[i + 1] = v
+                    r = child.local(0)
+                    if r is not None and (r.exact or r.src) and r.within(ty_range(pty) or (r.lo, r.hi)):
+                        return r
             return top(pty) if pty else None
         return None
 
@@ -409,6 +429,8 @@ def build_field_table(prog, crates, adts, validation_mod=None, rounds=6):
         new = {k: None for k in fields}
         for f in fns:
             fi = None
+            # a derived Clone rebuilds the value from its own fields: it cannot introduce a new value
+            is_clone = f.path.startswith("<") and f.path.endswith(" as core::clone::Clone>::clone")
             for b, blk in enumerate(f.blocks):
                 if blk[2]:
                     continue
@@ -416,6 +438,8 @@ def build_field_table(prog, crates, adts, validation_mod=None, rounds=6):
                     if st[0] != "=":
                         continue
                     rv = st[2]
+                    if is_clone and rv[0] == "agg" and rv[1][0] == "adt" and f.path.startswith("<" + rv[1][1] + " as "):
+                        continue
                     if rv[0] == "agg" and rv[1][0] == "adt" and rv[1][1] in adts:
                         path, vname = rv[1][1], rv[1][2]
                         var = [v for v in adts[path]["variants"] if v["name"] == vname]
